@@ -133,7 +133,7 @@ func uniGroup(t *rapid.T) []byte {
 
 func TestSamplers(t *testing.T) {
 	r := ev.New(t, prop, "TestSamplers")
-	r.Rule("hooked: the rejection samplers are fed buffers built from boundary candidates (uniform: 3-byte groups encoding 0,1,q-2,q-1,q,q+1,2^23-2,2^23-1 with the ignored top bit set or clear; eta: nibbles 0,4,5,9,10,14,15) of lengths around the stream block sizes, with varying room, and compared with the streaming reference samplers (count, values, no write past the count); the four seeded expanders (matrix entry, secret, mask, challenge) are compared with dilref on rapid seeds/nonces; non-trivial = a buffer containing at least one candidate exactly at the acceptance boundary (q-1/q, nibble 14/15), distinct by content")
+	r.Rule("hooked: the rejection samplers are fed buffers built from boundary candidates (uniform: 3-byte groups encoding 0,1,q-2,q-1,q,q+1,2^23-2,2^23-1 with the ignored top bit set or clear; eta: nibbles 0,4,5,9,10,14,15) of lengths around the stream block sizes, with varying room, and compared with the streaming reference samplers (count, values, no write past the count); the four seeded expanders (matrix entry, secret, mask, challenge) are compared with dilref on rapid seeds/nonces, the challenge expander also on seeds found by an offline search to consume 97..102 stream bytes; non-trivial = a buffer containing at least one candidate exactly at the acceptance boundary (q-1/q, nibble 14/15), distinct by content")
 	checks := r.PerShard(r.Pick(12000, 400000))
 	r.Rapid(t, "samp", checks, func(rt *rapid.T) {
 		c := &sampCase{Kind: rapid.SampledFrom([]string{"rejUniform", "rejUniform", "rejEta", "rejEta", "polyUniform", "polyUniformEta", "polyUniformGamma1", "polyChallenge"}).Draw(rt, "kind")}
@@ -170,11 +170,17 @@ func TestSamplers(t *testing.T) {
 			c.Nonce = rapid.IntRange(0, 700).Draw(rt, "nonce")
 		case "polyChallenge":
 			c.Seed = pu.DetBytes(rapid.Uint64().Draw(rt, "seed"), 32)
+			if rapid.IntRange(0, 3).Draw(rt, "hungry") == 0 {
+				// seeds found offline whose expansion consumes 97..102 stream bytes (usually ~75)
+				c.Seed, _ = pu.HungryChallengeSeed(rapid.IntRange(0, len(pu.HungryChallengeSeeds)-1).Draw(rt, "which"))
+				boundary = true
+				r.Count("challenge_seed_hungry", 1)
+			}
 		}
 		key, msg := runSamp(r, c)
 		r.Count("kind_"+c.Kind, 1)
 		if boundary {
-			r.NonTrivial(c.Kind, []byte(c.Buf), c.Max)
+			r.NonTrivial(c.Kind, []byte(c.Buf), c.Max, []byte(c.Seed))
 		}
 		r.Sample(map[string]any{"kind": c.Kind, "buf": pu.Short(c.Buf), "room": c.Max, "nonce": c.Nonce})
 		r.Check(rt, key == "", key, c, "%s", msg)
